@@ -4,6 +4,7 @@
    honest_reads / conforming_reads = what is assumed about DeviceControl::read, the subject of
    C06 / C07).  [sha1] and [unzip] are oracles: every theorem holds for all of them. *)
 From Cam Require Import XmlFetch ManifestSpec P_C14.
+From Cam Require U3VTables.
 
 (* The loop over the manifest entries, on a device that may fail but does not lie: it never panics,
    and when it completes every entry has a valid file type and the candidate it kept is the entry
@@ -90,6 +91,12 @@ Print Assumptions C14_no_panic.
 Theorem C14_text_ascii : forall bs, Forall (fun b => 0 <= b < 128) bs -> lossy bs = bs.
 Proof. exact lossy_ascii. Qed.
 Print Assumptions C14_text_ascii.
+
+(* ... and on every well-formed UTF-8 document (utf8_valid: exactly the encodings of Unicode scalar
+   values, theorem C13_string_spec). *)
+Theorem C14_text_utf8 : forall bs, U3VTables.utf8_valid bs = true -> lossy bs = bs.
+Proof. exact lossy_valid. Qed.
+Print Assumptions C14_text_utf8.
 
 (* The code before the repair (ZipArchive::new(..).unwrap()): a file flagged as zip that is not an
    archive panics; the repaired code returns InvalidDevice. *)
